@@ -19,6 +19,7 @@ import (
 	"verif/harness/internal/corr"
 	"verif/harness/internal/fw"
 	"verif/harness/internal/hk"
+	"verif/harness/internal/px"
 	"verif/harness/internal/scen"
 )
 
@@ -419,5 +420,87 @@ func NoHandlerClient(res *fw.Result, seed int64, base int) error {
 	}
 	res.Count("no-handler-client")
 	res.Eval(true, []interface{}{"no-handler-client"})
+	return nil
+}
+
+// StaleAnswerQueued: as StaleAnswer, but the request of the previous connection is still waiting in the
+// client's frame queue (it is large and slow to decode) when the connection ends and the client redials:
+// it is executed after the new connection was installed.  It is nevertheless a request of the old
+// connection, and its answer must not appear on the new one.
+func StaleAnswerQueued(res *fw.Result, seed int64, base int) error {
+	e, err := scen.NewEnv(seed+int64(base), 0, jsonrpc.WithReverseClient[RevAPI]("Rev"))
+	if err != nil {
+		return err
+	}
+	defer e.Close()
+	rs := newRS(e.RT)
+	e.Srv.Register("RS", rs)
+	ctx, cancel := context.WithCancel(context.Background())
+	defer cancel()
+	api := &FwdAPI{}
+	h := &RevH{ID: 6, C: newCtl(), Fwd: api}
+	closer, err := jsonrpc.NewMergeClient(ctx, e.WSURL(), "RS", []interface{}{api}, nil,
+		jsonrpc.WithClientHandler("Rev", h), jsonrpc.WithReconnectBackoff(5*time.Millisecond, 10*time.Millisecond))
+	if err != nil {
+		return err
+	}
+	defer scen.WithTimeout(3*time.Second, closer)
+	sig := "reverse request of the previous connection executed after the reconnect"
+	c := map[string]interface{}{"scenario": "stale-reverse-answer-queued"}
+	arg1, arg2 := (base+1)*1000, (base+2)*1000
+	// the connection ends (orderly: everything written is delivered) right after the big reverse request
+	// has passed: it is the first data frame server→client of connection 1
+	e.PX.Arm(px.Fault{Conn: 1, Dir: "s2c", Frame: 0, Pos: "after", Kind: "fin"})
+	go func() {
+		cctx, cc := context.WithTimeout(ctx, 15*time.Second)
+		defer cc()
+		api.Run(cctx, Spec{Tok: base + 1, Method: "Big", N: 1, Bg: true})
+	}()
+	// the client redials while its executor is still decoding the 40 MiB frame
+	healed := false
+	for w := 0; w < 2000 && !healed; w++ {
+		if e.PX.Accepted() >= 2 {
+			if v, err := api.Add(20, 22); err == nil && v == 42 {
+				healed = true
+				break
+			}
+		}
+		time.Sleep(2 * time.Millisecond)
+	}
+	if !healed {
+		res.Add(fw.Finding{Kind: "monitor", Signature: sig + " no heal", Detail: "the client did not work again after the loss", Case: c})
+		return nil
+	}
+	enteredBeforeHeal := h.C.Entered(arg1) > 0
+	// a reverse call on the new connection, pending while the old request is (or was) executed
+	second := make(chan Out, 1)
+	go func() {
+		cctx, cc := context.WithTimeout(ctx, 10*time.Second)
+		defer cc()
+		o, _ := api.Run(cctx, Spec{Tok: base + 2, Method: "Stubborn", N: 1, Bg: true})
+		second <- o
+	}()
+	if !h.C.waitEntered(arg2, 3*time.Second) {
+		res.Add(fw.Finding{Kind: "monitor", Signature: sig + " reverse call after heal not delivered", Detail: "a reverse call made on the re-established connection did not reach the client handler within 3s", Case: c})
+		return nil
+	}
+	h.C.waitEntered(arg1, 5*time.Second) // the old request has been executed by now
+	time.Sleep(150 * time.Millisecond)
+	h.C.Release(arg2)
+	select {
+	case o := <-second:
+		if len(o.Calls) == 1 && o.Calls[0].Err == "" && o.Calls[0].Val == ident(h.ID, arg1) {
+			res.Add(fw.Finding{Kind: "monitor", Signature: sig + " answered on the new connection",
+				Detail: fmt.Sprintf("the reverse call Stubborn(%d) made on the new connection returned %d, the answer to Big(%d) which arrived on the previous connection and was executed after the reconnect; its own answer is %d", arg2, o.Calls[0].Val, arg1, ident(h.ID, arg2)), Case: c})
+		} else if len(o.Calls) == 1 && o.Calls[0].Err == "" && o.Calls[0].Val != ident(h.ID, arg2) {
+			res.Add(fw.Finding{Kind: "monitor", Signature: sig + " wrong value", Detail: fmt.Sprintf("Stubborn(%d) returned %d", arg2, o.Calls[0].Val), Case: c})
+		}
+	case <-time.After(8 * time.Second):
+		res.Add(fw.Finding{Kind: "monitor", Signature: sig + " blocked", Detail: "the forward call on the new connection did not return", Case: c})
+	}
+	c14.CheckAnswers(res, e.PX.Frames(), sig)
+	res.Count("stale-answer-queued")
+	res.SampleKeep(map[string]interface{}{"scenario": "stale-answer-queued", "old_request_executed_before_heal": enteredBeforeHeal, "old_request_executed": h.C.Entered(arg1) > 0, "connections": e.PX.Accepted()})
+	res.Eval(true, []interface{}{"stale-answer-queued"})
 	return nil
 }
